@@ -258,7 +258,7 @@ def instances(tier):
     T1 = 280 if quick else 3000
     src = c01.instances(tier)
     for k, i in enumerate(src):
-        if i['factory'] == 'equivalence':
+        if i['factory'] in ('equivalence', 'ref_order'):
             continue
         if quick and k % 4 != 0:
             continue
